@@ -97,20 +97,19 @@ def _check_init(rep, prog, rid):
         raise AnalysisError('KeyAction.__init__: flags / conditions are no longer variadic arguments')
     me = init.params[0]
     for s in Interp(prog, Scenario(inline=noinline)).run(init):
-        st = {p: v for p, v, l, _ in s.stores}
-        fl = st.get('%s.flags' % me, '').replace(' ', '')
-        co = st.get('%s.conditions' % me, '').replace(' ', '')
-        ok_f = fl in ('set(*%s)' % va.arg, 'frozenset(*%s)' % va.arg, '{**%s}' % va.arg)
-        ok_c = co in (kw.arg, 'dict(%s)' % kw.arg, 'dict(**=%s)' % kw.arg, '{**:%s}' % kw.arg, '%s.copy()' % kw.arg)
-        # a shape that is neither the known-complete one nor recognisably partial (subscript / other source) is not judged
-        if not ok_f and ('*' + va.arg) in fl and '[' not in fl and 'SLICE(' not in fl:
-            raise AnalysisError('KeyAction.__init__: required flags built as %s' % fl)
-        if not ok_c and kw.arg in co and '[' not in co and 'for' not in co:
-            raise AnalysisError('KeyAction.__init__: conditions built as %s' % co)
-        rep.check(ok_f, rid, 'KeyAction.__init__', 'flags = %s' % fl, 'every capability named in the decorator is a required flag', where=init.where,
-                  expected='set(<all positional arguments>)', found=fl)
-        rep.check(ok_c, rid, 'KeyAction.__init__', 'conditions = %s' % co, 'every condition named in the decorator is kept', where=init.where,
-                  expected='<all keyword arguments>', found=co)
+        for attr, src, what, expected in (('flags', '*' + va.arg, 'every capability named in the decorator is a required flag', 'all positional arguments'),
+                                          ('conditions', kw.arg, 'every condition named in the decorator is kept', 'all keyword arguments')):
+            path = '%s.%s' % (me, attr)
+            # everything that flows into the attribute: what is stored, and the arguments of calls made on it (update / add ...)
+            texts = [v for p, v, l, _ in s.stores if p == path]
+            texts += [a for c in s.calls if any(c[0].startswith(t + '.') for t in [path] + texts) for a in list(c[1]) + list(c[2].values())]
+            if not texts:
+                raise AnalysisError('KeyAction.__init__: %s is never set' % path)
+            whole = re.compile(r'(?<![\w*])%s(?![\w\[])' % re.escape(src))
+            uses_all = any(whole.search(t) and 'SLICE(' + src not in t for t in texts)
+            partial = any((src + '[') in t or ('SLICE(' + src) in t for t in texts)
+            rep.check(uses_all and not partial, rid, 'KeyAction.__init__', '%s <- %s' % (attr, texts), what, where=init.where,
+                      expected=expected, found=texts)
 
 
 def check_private_ops(rep, prog, rid):
@@ -372,6 +371,10 @@ def check_attributes(rep, prog, rid):
         if k[0] == 'expr' and k[1].startswith('EACH('):
             m = re.match(r'^EACH\(.+? in .+? if \((.+) != (.+?)\);', k[1])
             t = (m.group(1), m.group(2), False) if m else None
+        elif k[0] == 'eq' and 'None' in k[1] and len(k[1]) == 2:
+            x = [y for y in k[1] if y != 'None'][0]          # next((pair for pair in .. if differs), None) is None: no pair differs
+            m = re.match(r'^next\(EACH\(.+? in .+? if \((.+) != (.+?)\);.*\), None\)$', x)
+            t = (m.group(1), m.group(2), True) if m else None
         elif k[0] == 'call' and k[1] in ('any', 'all') and len(k[2]) == 1:
             m = re.match(r'^EACH\(.+? in [^;]+;\((.+) (!=|==) (.+)\)\)$', k[2][0])
             if m and (k[1], m.group(2)) in (('any', '!='), ('all', '==')):
